@@ -22,7 +22,8 @@ CONSTANT AsIsThroughSubjectSet
 PTypes == {"G", "SSGm", "U", "G|SSGm", "D"}
 \* "U|SSDp": the group relation may hold D.parents subject sets: with a SubjectSet<G,"m"> type on D.parents this is a cycle of
 \* subject-set types that crosses namespaces (U|SSGm is the cycle inside one namespace)
-GMTypes == {"U", "U|SSGm", "U|SSDp"}
+\* "SSGm": the group relation holds only subgroups - a subject-set type that never reaches a plain namespace
+GMTypes == {"U", "U|SSGm", "U|SSDp", "SSGm"}
 Bodies == {"inc_parents", "trav_rel_m", "trav_perm_view", "this_perm_q", "trav_rel_self"}
 Mutations == {"none", "inc_undeclared_rel", "trav_undeclared_rel", "trav_undeclared_crel", "perm_undeclared",
               "type_undeclared_ns", "ss_undeclared_rel", "ss_undeclared_ns",
